@@ -399,7 +399,7 @@ register(C02())
 # C06 — deserialise -> serialise reproduces any parseable stream
 # --------------------------------------------------------------------------
 
-SERDES_KINDS = F.ALL_KINDS + ["f_coeff_huge", "f_coeff_huge", "f_offsets", "f_offsets", "f_uint", "f_uint", "f_lenbyte", "f_lenbyte", "f_fixed", "f_coeff"]
+SERDES_KINDS = F.ALL_KINDS + ["f_block_cut"] * 4 + ["f_coeff_huge", "f_coeff_huge", "f_offsets", "f_offsets", "f_uint", "f_uint", "f_lenbyte", "f_lenbyte", "f_fixed", "f_coeff"]
 
 
 class C06(ByteChanSpec):
@@ -481,7 +481,7 @@ register(C06())
 # C08 / C09 — accepted streams: the two parsers agree; pictures are well formed
 # --------------------------------------------------------------------------
 
-ACCEPT_KINDS = ["f_coeff"] * 6 + ["f_coeff_huge"] * 3 + ["flip", "flip", "f_lenbyte", "f_lenbyte", "f_bool", "f_uint", "f_fixed", "set", "f_picnum", "burst", "zero", "f_unit_dup", "f_unit_drop", "append", "f_ld_resize", "f_ld_resize", "f_frag_alias"]
+ACCEPT_KINDS = ["f_frag_len"] * 2 + ["f_coeff"] * 6 + ["f_coeff_huge"] * 3 + ["f_block_cut"] * 4 + ["flip", "flip", "f_lenbyte", "f_lenbyte", "f_bool", "f_uint", "f_fixed", "set", "f_picnum", "burst", "zero", "f_unit_dup", "f_unit_drop", "append", "f_ld_resize", "f_ld_resize", "f_frag_alias"]
 
 
 def h_quant_factor(i):
